@@ -11,6 +11,7 @@ N2  helpers that are not in sa/pinned_functions.json (introduced after the rules
 N3  equivalent spellings:  np.flatnonzero(m) -> np.where(m)[0];  x[::-1] -> np.flip(x, axis=0);
     (f(x) for x in (a, b, c)) -> (f(a), f(b), f(c))   (comprehension / generator over a literal tuple or list)
 N4  unpacking of a name (not of a call):  a, b = p  ->  a = p[0]; b = p[1]   (nested patterns too)
+N25 a for-loop over a literal tuple of at most four items is unrolled, the target substituted (items pure, nothing they mention rebound)
 N8  pair loops over a series:  for i, (a, b) in enumerate(zip(x[:-1], x[1:]), start=c)  ->  for k in range(len(x) - 1): a = x[k]; b = x[k+1]
 N9  a state vector carried through a time loop beside the zero-initialised array it is stored into is that array's previous column
 N7  list comprehensions and generator expressions become explicit append loops
@@ -176,6 +177,15 @@ class _Spell(ast.NodeTransformer):
             inner = ast.Subscript(value=n.value, slice=ast.Slice(lower=ast.Constant(value=s.upper.value + 1),
                                                                  upper=(ast.UnaryOp(op=ast.USub(), operand=ast.Constant(value=-(a + 1))) if a + 1 < 0 else None),
                                                                  step=None), ctx=ast.Load())
+            c = ast.Call(func=ast.Attribute(value=ast.Name(id="np", ctx=ast.Load()), attr="flip", ctx=ast.Load()), args=[inner],
+                         keywords=[ast.keyword(arg="axis", value=ast.Constant(value=0))])
+            return ast.copy_location(c, n)
+        # x[:b:-1] with a constant b >= 0 walks n-1, ..., b+1: the reverse of x[b+1:]
+        if isinstance(n.ctx, ast.Load) and isinstance(s, ast.Slice) and s.lower is None and isinstance(s.upper, ast.Constant) and \
+                isinstance(s.upper.value, int) and not isinstance(s.upper.value, bool) and s.upper.value >= 0 and \
+                isinstance(s.step, ast.UnaryOp) and isinstance(s.step.op, ast.USub) and isinstance(s.step.operand, ast.Constant) and \
+                s.step.operand.value == 1:
+            inner = ast.Subscript(value=n.value, slice=ast.Slice(lower=ast.Constant(value=s.upper.value + 1), upper=None, step=None), ctx=ast.Load())
             c = ast.Call(func=ast.Attribute(value=ast.Name(id="np", ctx=ast.Load()), attr="flip", ctx=ast.Load()), args=[inner],
                          keywords=[ast.keyword(arg="axis", value=ast.Constant(value=0))])
             return ast.copy_location(c, n)
@@ -724,7 +734,9 @@ def _stmt(st, ctx, cls, selfname, depth):
                  if not (isinstance(t, ast.Name) and isinstance(v, ast.Name) and t.id == v.id)]        # x = x says nothing
         tn = {x.id for t, _ in pairs for x in ast.walk(t) if isinstance(x, ast.Name)}
         vn = {x.id for _, v in pairs for x in ast.walk(v) if isinstance(x, ast.Name)}
-        if not (tn & vn) and all(isinstance(t, ast.Name) for t, _ in pairs):
+        simple_t = all(isinstance(t, ast.Name) or (isinstance(t, ast.Attribute) and isinstance(t.value, ast.Name)) for t, _ in pairs) and \
+            len({ast.unparse(t) for t, _ in pairs}) == len(pairs)          # names, or attributes of an object no value mentions
+        if not (tn & vn) and simple_t:
             if not pairs:
                 return [ast.copy_location(ast.Pass(), st)]
             return _block([_assign([t], v, st) for t, v in pairs], ctx, cls, selfname, depth)
@@ -813,6 +825,70 @@ def _block(stmts, ctx, cls, selfname, depth=0):
 
 
 # ------------------------------------------------------------------------------------------------- N5 views of a local array
+def _unroll_literal_loops(fn):
+    """N25  for T in (item1, .., itemk):  BODY     (k <= 4 literal items; T a name or a flat tuple of names matching tuple items)
+         ->  BODY[T := item1]; ..; BODY[T := itemk]
+    when the items are built from names, numbers and subscripts only, BODY rebinds neither T nor any name the items mention, has no
+    else clause and no break / continue of this loop: each copy of BODY evaluates exactly what the loop's iteration evaluates."""
+    def pure(e):
+        return all(isinstance(n, (ast.Name, ast.Constant, ast.Subscript, ast.Slice, ast.UnaryOp, ast.BinOp, ast.Tuple, ast.Load, ast.operator,
+                                  ast.unaryop, ast.Attribute)) for n in ast.walk(e))
+
+    def own_jumps(body):
+        out = []
+
+        def walk(stmts):
+            for st in stmts:
+                if isinstance(st, (ast.Break, ast.Continue)):
+                    out.append(st)
+                elif isinstance(st, (ast.For, ast.While)):
+                    walk(st.orelse)
+                elif isinstance(st, (ast.FunctionDef, ast.ClassDef)):
+                    continue
+                else:
+                    for f in ("body", "orelse", "finalbody"):
+                        walk(getattr(st, f, []) or [])
+                    for h in getattr(st, "handlers", []) or []:
+                        walk(h.body)
+        walk(body)
+        return out
+
+    class U(ast.NodeTransformer):
+        def visit_For(self, lp):
+            self.generic_visit(lp)
+            it = lp.iter
+            if not isinstance(it, (ast.Tuple, ast.List)) or not (1 <= len(it.elts) <= 4) or lp.orelse or own_jumps(lp.body):
+                return lp
+            if isinstance(lp.target, ast.Name):
+                tnames = [lp.target.id]
+            elif isinstance(lp.target, ast.Tuple) and all(isinstance(x, ast.Name) for x in lp.target.elts):
+                tnames = [x.id for x in lp.target.elts]
+                if not all(isinstance(e, ast.Tuple) and len(e.elts) == len(tnames) for e in it.elts):
+                    return lp
+            else:
+                return lp
+            if not all(pure(e) for e in it.elts):
+                return lp
+            mentioned = {n.id for e in it.elts for n in ast.walk(e) if isinstance(n, ast.Name)}
+            stored = {n.id for st in lp.body for n in ast.walk(st) if isinstance(n, ast.Name) and isinstance(n.ctx, (ast.Store, ast.Del))}
+            if stored & (mentioned | set(tnames)) or any(isinstance(n, (ast.FunctionDef, ast.Lambda)) for st in lp.body for n in ast.walk(st)):
+                return lp
+            inside = {id(n) for n in ast.walk(lp)}
+            if any(isinstance(n, ast.Name) and n.id in tnames and id(n) not in inside for n in ast.walk(fn)):
+                return lp          # the loop variable is used after the loop (it stays bound to the last item)
+            out = []
+            for e in it.elts:
+                m = {tnames[0]: e} if isinstance(lp.target, ast.Name) else dict(zip(tnames, e.elts))
+
+                class S(ast.NodeTransformer):
+                    def visit_Name(self_, x):
+                        return copy.deepcopy(m[x.id]) if (isinstance(x.ctx, ast.Load) and x.id in m) else x
+                for st in lp.body:
+                    out.append(ast.fix_missing_locations(S().visit(copy.deepcopy(st))))
+            return out
+    U().visit(fn)
+
+
 def _views(fn):
     """v = X[a:b] (X a local array name bound once, v bound once, basic slice => a view): uses v[:, e] become X[a:b, e] and bare loads of
     v become X[a:b]; stores through the view are stores into X, which is what they are."""
@@ -867,7 +943,7 @@ def _views(fn):
 # ------------------------------------------------------------------------------------------------- N6 module-level constant expressions
 def _module_constants(tree):
     """NAME = <arithmetic of literals and pi> at module level, bound once and never re-bound in a function: loads of NAME inside
-    functions are replaced by the expression (plain literal constants are left to the resolver, which already knows them)."""
+    functions are replaced by the expression; a name bound once to a plain number is replaced by the number."""
     consts, counts = {}, {}
     for st in tree.body:
         for n in ast.walk(st) if not isinstance(st, (ast.FunctionDef, ast.ClassDef)) else []:
@@ -875,6 +951,14 @@ def _module_constants(tree):
                 counts[n.id] = counts.get(n.id, 0) + 1
     for st in tree.body:
         if isinstance(st, ast.Assign) and len(st.targets) == 1 and isinstance(st.targets[0], ast.Name) and counts.get(st.targets[0].id) == 1 \
+                and isinstance(st.value, ast.Constant) and type(st.value.value) in (int, float, str) and \
+                not st.targets[0].id.startswith("__"):
+            consts[st.targets[0].id] = st.value          # a named number or format string (MIN_STEPS = 6) is that literal
+        elif isinstance(st, ast.Assign) and len(st.targets) == 1 and isinstance(st.targets[0], ast.Name) and counts.get(st.targets[0].id) == 1 \
+                and isinstance(st.value, ast.Tuple) and st.value.elts and not st.targets[0].id.startswith("__") and \
+                all(isinstance(e, ast.Constant) and type(e.value) in (int, float, str) for e in st.value.elts):
+            consts[st.targets[0].id] = st.value          # a named tuple of literals (immutable) is that tuple
+        elif isinstance(st, ast.Assign) and len(st.targets) == 1 and isinstance(st.targets[0], ast.Name) and counts.get(st.targets[0].id) == 1 \
                 and not isinstance(st.value, ast.Constant):
             ok = True
             for n in ast.walk(st.value):
@@ -1482,6 +1566,7 @@ def normalise_module(tree, modname, foreign=None, mod_alias=None):
     for n in tree.body:
         if isinstance(n, ast.FunctionDef):
             ctx.caller_names = _locals_of(n) | {x.id for x in ast.walk(n) if isinstance(x, ast.Name)}
+            _unroll_literal_loops(n)
             n.body = _block(n.body, ctx, None, None)
             _pair_loops(n, ctx)
             n.body = _block(n.body, ctx, None, None)
@@ -1496,6 +1581,7 @@ def normalise_module(tree, modname, foreign=None, mod_alias=None):
                 if isinstance(m, ast.FunctionDef):
                     selfname = m.args.args[0].arg if (m.args.args and not any(ast.unparse(d) == "staticmethod" for d in m.decorator_list)) else None
                     ctx.caller_names = _locals_of(m) | {x.id for x in ast.walk(m) if isinstance(x, ast.Name)}
+                    _unroll_literal_loops(m)
                     m.body = _block(m.body, ctx, n.name, selfname)
                     _pair_loops(m, ctx)
                     _hoist_common_prefix(m)
